@@ -166,6 +166,37 @@ static void s_compile_include(Sc& s) {
 static const char* EXT_RULES =
   "rule e_int { condition: ext_i == 7 }\nrule e_bool { condition: ext_b }\nrule e_float { condition: ext_f > 1.0 }\n"
   "rule e_str { condition: ext_s contains \"needle\" and ext_s matches /ne+dle/ }\nrule e_at { strings: $a = \"MARK\" condition: $a at ext_i }\n";
+
+// After a definition that failed under the fault, the same compiler is used on (faults off): the definitions are
+// completed (an already defined one may answer DUPLICATED), rules compiled and scanned; the verdicts must be those of
+// a compiler that never saw a fault.
+static void s_externals_retry(Sc& s) {
+  s.arm(); if (!sc_init(s)) return; YR_COMPILER* c = sc_compiler(s); if (!c) return;
+  static int stage; stage = 0;
+  s.probe = [c]() -> std::string {
+    if (stage < 1 || stage > 4) return "";
+    auto ok = [](int rc) { return rc == ERROR_SUCCESS || rc == ERROR_DUPLICATED_EXTERNAL_VARIABLE; };
+    if (!ok(yr_compiler_define_integer_variable(c, "ext_i", 7))) return "retry-define-integer";
+    if (!ok(yr_compiler_define_boolean_variable(c, "ext_b", 1))) return "retry-define-boolean";
+    if (!ok(yr_compiler_define_float_variable(c, "ext_f", 2.5))) return "retry-define-float";
+    if (!ok(yr_compiler_define_string_variable(c, "ext_s", "hay needle hay"))) return "retry-define-string";
+    if (yr_compiler_add_string(c, EXT_RULES, NULL) != 0) return "compile-after-failed-define";
+    YR_RULES* r = NULL; if (yr_compiler_get_rules(c, &r) != ERROR_SUCCESS) return "get-rules-after-failed-define";
+    std::string buf = "0123456MARK.... hay needle";
+    Recorder got; int rc = yr_rules_scan_mem(r, (const uint8_t*) buf.data(), buf.size(), 0, recorder_callback, &got, 0); yr_rules_destroy(r);
+    CompileSpec cs; cs.externals.push_back({"ext_i", 'i', 7, 0, ""}); cs.externals.push_back({"ext_b", 'b', 1, 0, ""}); cs.externals.push_back({"ext_f", 'f', 0, 2.5, ""}); cs.externals.push_back({"ext_s", 's', 0, 0, "hay needle hay"});
+    cs.sources.push_back({"", EXT_RULES}); CompileResult cr = compile_rules(cs); if (!cr.rules) return "harness: reference does not compile";
+    Recorder ref; int rc2 = yr_rules_scan_mem(cr.rules, (const uint8_t*) buf.data(), buf.size(), 0, recorder_callback, &ref, 0); yr_rules_destroy(cr.rules);
+    if (rc != rc2 || got.text != ref.text) return "externals-differ-after-failed-define: stage " + std::to_string(stage);
+    return "";
+  };
+  stage = 1; if (!ST(s, "yr_compiler_define_integer_variable", yr_compiler_define_integer_variable(c, "ext_i", 7))) return;
+  stage = 2; if (!ST(s, "yr_compiler_define_boolean_variable", yr_compiler_define_boolean_variable(c, "ext_b", 1))) return;
+  stage = 3; if (!ST(s, "yr_compiler_define_float_variable", yr_compiler_define_float_variable(c, "ext_f", 2.5))) return;
+  stage = 4; if (!ST(s, "yr_compiler_define_string_variable", yr_compiler_define_string_variable(c, "ext_s", "hay needle hay"))) return;
+  stage = 5;
+}
+
 static void s_externals(Sc& s) {
   s.arm(); if (!sc_init(s)) return; YR_COMPILER* c = sc_compiler(s); if (!c) return;
   if (!ST(s, "yr_compiler_define_integer_variable", yr_compiler_define_integer_variable(c, "ext_i", 7))) return;
@@ -195,6 +226,35 @@ static void s_externals(Sc& s) {
   s.pre(); rc = yr_scanner_scan_mem(sc2, (const uint8_t*) buf.data(), buf.size());
   s.S("yr_scanner_scan_mem#2", rc, rec2.text);
 }
+
+// A scanner-level string definition that fails must change nothing: the scanner keeps answering with the value it
+// had (here the rule-set value), like a second scanner that was never asked to change it.
+static void s_scanner_define_string(Sc& s) {
+  if (!sc_init(s)) return; YR_COMPILER* c = sc_compiler(s); if (!c) return;
+  if (!ST(s, "yr_compiler_define_string_variable", yr_compiler_define_string_variable(c, "ext_s", "hay needle hay"))) return;
+  if (!ST(s, "yr_compiler_define_integer_variable", yr_compiler_define_integer_variable(c, "ext_i", 7))) return;
+  if (!sc_add(s, c, "rule x_str { condition: ext_s contains \"needle\" }\nrule x_other { condition: ext_s contains \"other\" }\nrule x_def { condition: defined ext_s and ext_i == 7 }\n")) return;
+  YR_RULES* r = sc_get_rules(s, c); if (!r) return;
+  YR_SCANNER* sc = NULL; if (!ST(s, "yr_scanner_create", yr_scanner_create(r, &sc))) return; s.scanners.push_back(sc);
+  static bool define_failed; define_failed = false;
+  s.probe = [sc, r]() -> std::string {
+    if (!define_failed) return "";
+    std::string buf = "some data";
+    Recorder a; yr_scanner_set_callback(sc, recorder_callback, &a); int rc1 = yr_scanner_scan_mem(sc, (const uint8_t*) buf.data(), buf.size());
+    YR_SCANNER* fresh = NULL; if (yr_scanner_create(r, &fresh) != ERROR_SUCCESS) return "harness: scanner_create";
+    Recorder b; yr_scanner_set_callback(fresh, recorder_callback, &b); int rc2 = yr_scanner_scan_mem(fresh, (const uint8_t*) buf.data(), buf.size()); yr_scanner_destroy(fresh);
+    if (rc1 != rc2 || a.text != b.text) return "failed-define-changed-the-variable: scanner now reports '" + a.text.substr(0, 120) + "', one that was never redefined '" + b.text.substr(0, 120) + "'";
+    return "";
+  };
+  s.arm();
+  s.pre(); int rc = yr_scanner_define_string_variable(sc, "ext_s", "this is the other value, long enough to need its own block");
+  if (rc != ERROR_SUCCESS) define_failed = true;
+  if (!s.S("yr_scanner_define_string_variable", rc)) return;
+  Recorder rec; yr_scanner_set_callback(sc, recorder_callback, &rec); std::string buf = "some data";
+  s.pre(); rc = yr_scanner_scan_mem(sc, (const uint8_t*) buf.data(), buf.size());
+  s.S("yr_scanner_scan_mem", rc, rec.text);
+}
+
 static void s_save_load_stream(Sc& s) {
   if (!sc_init(s)) return;
   YR_RULES* r = sc_compile(s, frags_src({"text", "hexchain", "regreedy", "count", "forin", "tests", "hash"})); if (!r) return;
@@ -322,7 +382,7 @@ static const Scenario SCENARIOS[] = {
   {"init_fini", s_init_fini}, {"compile_strings", s_compile_strings}, {"compile_regex", s_compile_regex}, {"compile_cond", s_compile_cond}, {"compile_strings_tiny_arena", s_compile_strings_tiny}, {"compile_regex_tiny_arena", s_compile_regex_tiny}, {"compile_cond_tiny_arena", s_compile_cond_tiny},
   {"compile_pe", s_compile_pe}, {"compile_elf", s_compile_elf}, {"compile_dotnet", s_compile_dotnet}, {"compile_macho", s_compile_macho},
   {"compile_dex", s_compile_dex}, {"compile_small_mods", s_compile_small_mods}, {"compile_error", s_compile_error},
-  {"compile_namespaces", s_compile_namespaces}, {"compile_include", s_compile_include}, {"externals", s_externals},
+  {"compile_namespaces", s_compile_namespaces}, {"compile_include", s_compile_include}, {"externals", s_externals}, {"externals_retry", s_externals_retry}, {"scanner_define_string", s_scanner_define_string},
   {"save_load_stream", s_save_load_stream}, {"save_load_file", s_save_load_file},
   {"scan_text", s_scan_text}, {"scan_regex", s_scan_regex}, {"scan_cond", s_scan_cond}, {"scan_many_matches", s_scan_many_matches},
   {"scan_pe", s_scan_pe}, {"scan_pe_signed", s_scan_pe_signed}, {"scan_elf", s_scan_elf}, {"scan_dotnet", s_scan_dotnet},
